@@ -462,6 +462,7 @@ class Body:
                     self._defpos[id(s)] = (i, n)
                 else:
                     d[('partial', s['lhs']['local'])].append((i, 'stmt', s))
+                    self._defpos[id(s)] = (i, n)
             t = bl['term']
             if t['k'] == 'call':
                 if not t['dest']['proj']:
@@ -526,7 +527,7 @@ class Body:
         ENTRY = (0, 'entry', None)
         IN = {i: [] for i in ids}
         OUT = {i: [] for i in ids}
-        IN[0] = [ENTRY] if 1 <= l <= self.argc else []
+        IN[0] = [ENTRY] if (not isinstance(l, tuple) and 1 <= l <= self.argc) else []
         ch = True
         key = lambda d: id(d[2]) if d[2] is not None else 0
         while ch:
@@ -589,9 +590,35 @@ class Body:
             at = self.positions().get(id(operand))
         return self.place_expr(p, depth, seen, at)
 
+    def _field_defs(self, l, fname):
+        """definitions of the pseudo-variable `local.field` when the field is also assigned on its own (`s.f = v` after
+        `s = S { .. }`): the whole-local definitions and the assignments of exactly that field"""
+        key = ('fld', l, fname)
+        ds = self.defs()
+        if key in ds:
+            return key if ds[key] else None
+        parts = [d for d in ds.get(('partial', l), []) if d[1] == 'stmt' and len(d[2]['lhs']['proj']) == 1
+                 and isinstance(d[2]['lhs']['proj'][0], dict) and d[2]['lhs']['proj'][0].get('field') == fname]
+        other = [d for d in ds.get(('partial', l), []) if d not in parts and d[1] == 'stmt' and d[2]['lhs']['proj']
+                 and isinstance(d[2]['lhs']['proj'][0], dict) and d[2]['lhs']['proj'][0].get('field') == fname]
+        if not parts or other:
+            ds[key] = []
+            return None
+        ds[key] = list(ds.get(l, [])) + parts
+        return key
+
     def place_expr(self, p, depth=0, seen=None, at=None):
-        e = self.local_expr(p['local'], depth, seen, at)
-        for pe in p['proj']:
+        proj = p['proj']
+        e = None
+        if at is not None and proj and isinstance(proj[0], dict) and 'field' in proj[0] and depth < 300:
+            key = self._field_defs(p['local'], proj[0]['field'])
+            if key is not None:
+                e = self._value_at(key, at, depth, seen if seen is not None else frozenset())
+                proj = proj[1:]
+        if e is None:
+            e = self.local_expr(p['local'], depth, seen, at)
+            proj = p['proj']
+        for pe in proj:
             if pe == 'deref':
                 e = ('deref', e)
             elif isinstance(pe, dict) and 'field' in pe:
@@ -613,6 +640,27 @@ class Body:
     def local_expr(self, l, depth=0, seen=None, at=None):
         if seen is None:
             seen = frozenset()
+        if at is not None and not isinstance(l, tuple) and depth < 300 and ('partial', l) in self.defs() and ('whole', l) not in seen:
+            # a struct built as a literal and then updated field by field (`s.f = v`): its value where it is read is the
+            # literal with the updated fields
+            base = self.local_expr(l, depth, seen | {('whole', l)}, at)
+            b0 = base
+            while b0[0] in ('ref', 'deref'):
+                b0 = b0[1]
+            if b0[0] == 'aggr' and len(b0) > 3 and b0[3] and len(b0[3]) == len(b0[2]):
+                vals = list(b0[2])
+                changed = False
+                for fname in sorted(set(d[2]['lhs']['proj'][0].get('field') for d in self.defs()[('partial', l)]
+                                        if d[1] == 'stmt' and d[2]['lhs']['proj'] and isinstance(d[2]['lhs']['proj'][0], dict) and d[2]['lhs']['proj'][0].get('field'))):
+                    short_ = fname.rsplit('.', 1)[-1]
+                    if short_ in b0[3]:
+                        key = self._field_defs(l, fname)
+                        if key is not None:
+                            vals[list(b0[3]).index(short_)] = self._value_at(key, at, depth + 1, seen | {('whole', l)})
+                            changed = True
+                if changed:
+                    return ('aggr', b0[1], vals) + tuple(b0[3:])
+            return base
         alld = self.defs().get(l, [])
         if 1 <= l <= self.argc and not alld:
             return ('arg', l, self.arg_names.get(l))
@@ -659,8 +707,14 @@ class Body:
             return ('arg', l, self.arg_names.get(l))
         key = (l, id(x))
         if key in seen:
-            return ('loop', l, self.names.get(l))
-        return self.def_expr(bid, kind, x, depth + 1, seen | {key})
+            return ('loop', l, self.names.get(l) if not isinstance(l, tuple) else '%s.%s' % (self.names.get(l[1]), l[2].rsplit('.', 1)[-1]))
+        v = self.def_expr(bid, kind, x, depth + 1, seen | {key})
+        if isinstance(l, tuple) and l[0] == 'fld':
+            lhs = x.get('lhs') if kind == 'stmt' else x.get('dest')
+            if lhs is not None and not lhs['proj']:
+                # a definition of the whole local: this field of it
+                v = lower(self.facts, simplify_field(('field', v, l[2].rsplit('.', 1)[-1], l[2])))
+        return v
 
     def _last_def_in(self, l, bid, before=None):
         best = None
